@@ -90,6 +90,18 @@ INFO = {
  "C11r7-section-type-by-raw-command-text": ("C11", "process_ct_add_section delegates to process_ct_add_test, which picks the doc type by the RAW command text", "CT_ADD_SECTION written with upper-case letters gets the test warning"),
  "C13r7-empty-directory-skipped": ("C13", "document() skips a walked directory without files and subdirectories (no index.rst)", "-r, auto-exclusion off, a completely empty (or completely excluded) directory"),
  "C20r7-heading-length-by-display-width": ("C20", "Heading frame length = sum of east-asian display widths instead of len(title)", "a title with wide/full-width characters"),
+ "C04r8-macro-flag-by-raw-spelling": ("C04", "is_macro of a pending member/test is computed from the RAW command spelling (identifier == 'macro')", "cpp_member/cpp_constructor implemented by a macro written MACRO/Macro: the macro note disappears"),
+ "C06r8-errors-collected-per-directory": ("C06", "document() catches syntax errors per file, collects them in a list that is re-initialised per walked directory and re-raises after the walk", "-r, a faulty file in a directory that is not the last one walked: exit status 0 (rebased onto the D16 fix for evaluation)"),
+ "C07r8-macro-test-note-outside-entry": ("C07", "Test/SectionDocumentation.process emits a macro note on the parent writer instead of the entry's directive", "ct_add_test/ct_add_section implemented by a macro: a top-level '.. note::' follows the entry"),
+ "C08r8-pending-cleared-only-with-params": ("C08", "the pending member/test declaration is cleared only when the implementing definition has parameters beyond name and self", "documented no-argument member + a following undocumented declaration whose kind is switched off: the documented entry gains foreign parameters"),
+ "C10r8-type-field-suppressed-by-doc": ("C10", "the generated type field is omitted when the doccomment contains ':type:'", "documented set()/option() whose doccomment has a ':type:' field of its own"),
+ "C12r8-title-escaped-frame-not": ("C12", "Heading escapes inline-markup characters of the title line (re.sub) but frames by the unescaped length", "a title with '*', '`', '|' or a word-final '_'"),
+ "C14r8-input-realpath": ("C14", "document() canonicalises the input with os.path.realpath", "the input path is a symbolic link and no prefix is given: index titles name the link target"),
+ "C15r8-trailing-slash-after-input-check": ("C15", "the trailing slash of a directory input is added after the input-path exclusion check", "a directory-only pattern ('build/') matching the input directory + auto-exclusion off + -o"),
+ "C16r8-falsy-cli-values-dropped": ("C16", "command-line options are filtered with 'and value' before set_args", "-p '' (or -o '') on the command line + a lower-priority source setting the option"),
+ "C17r8-visited-realpath-skips-alias": ("C17", "the walk skips directories whose realpath was already visited", "follow_symlinks on + a directory reachable under two names + two listing orders"),
+ "C18r8-filenames-narrowed-with-o": ("C18", "the -o branch rebinds filenames to the *.cmake-filtered list", "a file named exactly 'cmake' -- documented on the pinned code only because of defect D16; with the D16 fix the change has no effect left"),
+ "C19r8-stale-rst-removed": ("C19", "cminx_gen_rst globs and removes '*.rst' below the output directory before running cminx (directory inputs)", "an output directory that already holds pages of an earlier call"),
  "C18r2-sort-by-splitext": ("C18", "files sorted by (stem, extension) instead of by name", "a directory with names like Foo.cmake and Foo-x.cmake: stdout page order is not the sorted name order"),
 }
 
@@ -113,7 +125,7 @@ for name, (prop, change, needs) in INFO.items():
     d = os.path.join(R, "seeded", name)
     if not os.path.isdir(d):
         continue
-    r2 = "r2" if "r2-" in name else ("r3" if "r3-" in name else ("r4" if "r4-" in name else ("r5" if "r5-" in name else ("r6" if "r6-" in name else ("r7" if "r7-" in name else "")))))
+    r2 = "r2" if "r2-" in name else ("r3" if "r3-" in name else ("r4" if "r4-" in name else ("r5" if "r5-" in name else ("r6" if "r6-" in name else ("r7" if "r7-" in name else ("r8" if "r8-" in name else ""))))))
     after = parse(os.path.join(R, ".logs", "seed%s_%s.log" % (r2, prop)))
     before = parse(os.path.join(R, ".logs", "seed%sbefore_%s.log" % (r2, prop)))
     meta = {"breaks_property": prop, "change": change, "needs_to_manifest": needs,
